@@ -243,7 +243,7 @@ func (g *cg) program(index int) *Program {
 	return &Program{Body: body}
 }
 
-var idents = []string{"a", "b", "c", "x1", "$", "_", "$a_1", "ab", "getx", "of", "let", "yield", "async", "undefined", "NaN", "eval", "arguments", "\u00e9", "\u2113", "\\u0061b", "a\\u0062"}
+var idents = []string{"a", "b", "c", "x1", "$", "_", "$a_1", "ab", "getx", "of", "let", "yield", "async", "undefined", "NaN", "eval", "arguments", "\u00e9", "\u2113", "\\u0061b", "a\\u0062", "a\u200cb", "a\u200d", "a\\u200cb", "b\u0300", "x\u203f", "\u2160a", "a\u0660"}
 
 func (g *cg) ident() *Ident {
 	n := idents[g.r.Intn(len(idents))]
